@@ -53,6 +53,8 @@ class Vec(Ty):
                 raise OutOfReach(f"{v._ty.name} stored where {self.name} is declared")
             return v._loc.get()
         if isinstance(v, (list, tuple)):
+            if len(v) > 8 and type(v[0]) in (int, float, bool) and all(type(x) is type(v[0]) and x == v[0] for x in v):
+                return self.dt.mk(z3.K(z3.IntSort(), self.elem.unwrap(v[0])), z3.IntVal(len(v)))    # [c] * n
             arr = z3.K(z3.IntSort(), _default_of(self.elem.sort()))
             for i, x in enumerate(v):
                 arr = z3.Store(arr, z3.IntVal(i), self.elem.unwrap(x))
